@@ -87,6 +87,21 @@ func init() {
 	add(c17Addr{tw: "/ip4/2.2.2.1/tcp/2", rest: "/p2p-circuit", relay: true})
 	add(c17Addr{tw: "/ip4/2.2.2.2/udp/2", rest: "/quic-v1/p2p-circuit", relay: true})
 	add(c17Addr{tw: "/ip6/2a00::1/tcp/2", rest: "/p2p-circuit", relay: true})
+	// /p2p-circuit in every position: last, followed by /p2p/<self>, after the
+	// relay's /p2p/<id>, in the middle with further components
+	const pid1 = "/p2p/QmdXGaeGiVA745XorV1jr11RHxB9z4fqykm6xCUPX1aTJo"
+	const pid2 = "/p2p/QmcgpsyWgH8Y8ajJz1Cu72KnS5uo2Aa2LpzU7kinSupNKC"
+	add(c17Addr{tw: "/ip4/2.2.2.1/tcp/2", rest: pid1 + "/p2p-circuit", relay: true})
+	add(c17Addr{tw: "/ip4/2.2.2.1/tcp/2", rest: pid1 + "/p2p-circuit" + pid2, relay: true})
+	add(c17Addr{tw: "/ip4/2.2.2.3/tcp/2", rest: "/p2p-circuit" + pid2, relay: true})
+	add(c17Addr{tw: "/ip4/2.2.2.2/udp/2", rest: "/quic-v1" + pid1 + "/p2p-circuit" + pid2, relay: true})
+	add(c17Addr{tw: "/ip4/2.2.2.4/tcp/3", rest: "/ws" + pid1 + "/p2p-circuit/tls/ws", relay: true})
+	add(c17Addr{tw: "/ip6/2a00::2/tcp/2", rest: pid1 + "/p2p-circuit" + pid2, relay: true})
+	// the other never-count classes with trailing components / a zone
+	add(c17Addr{tw: "/ip4/127.0.0.1/tcp/2", rest: "/ws" + pid1, lb: true})
+	add(c17Addr{tw: "/ip4/127.9.9.9/udp/3", rest: "/quic-v1/webtransport", lb: true})
+	add(c17Addr{rest: "/ip6zone/eth0/ip6/::1/tcp/2", lb: true})
+	add(c17Addr{tw: "/ip6/64:ff9b::808:808/tcp/3", rest: "/tls/ws" + pid2, n64: true})
 	add(c17Addr{rest: "/dns4/example.com/tcp/2"})
 	add(c17Addr{rest: "/ip4/2.2.2.1"})
 	add(c17Addr{rest: "/ip4/2.2.2.1/tls"})
@@ -755,6 +770,7 @@ func c17Corpus(t *testing.T) []*c17Script {
 	for _, bad := range []string{
 		"/ip4/127.0.0.1/tcp/2", "/ip6/64:ff9b::202:201/tcp/2", "/ip4/2.2.2.1/tcp/2/p2p-circuit",
 		"/dns4/example.com/tcp/2", "/ip4/2.2.2.1/udp/2/quic-v1", "/ip6/2a00::1/tcp/2",
+		"/ip4/2.2.2.1/tcp/2/p2p/QmdXGaeGiVA745XorV1jr11RHxB9z4fqykm6xCUPX1aTJo/p2p-circuit/p2p/QmcgpsyWgH8Y8ajJz1Cu72KnS5uo2Aa2LpzU7kinSupNKC",
 	} {
 		b, ok := T.obsByStr[bad]
 		if !ok || good.tw == "" {
